@@ -210,8 +210,9 @@ def run(ctx):
             for bi, t in g.calls():
                 if t.callee_name() in ("duplicate_field", "missing_field"):
                     a = tbg.operand(t.args[0], bi, len(g.blocks[bi].stmts))
-                    if a[0] == "const":
-                        (dup if t.callee_name() == "duplicate_field" else miss).add(a[1])
+                    for x in (a[1] if a[0] == "phi" else (a,)):     # one call site may name the field through a `match key { .. }`
+                        if x[0] == "const":
+                            (dup if t.callee_name() == "duplicate_field" else miss).add(x[1])
     ctx.check(dup == set(struct_fields) and miss == set(struct_fields), "R20-field-tables", "deserialize:dup-missing", vm[0] if vm else de,
               "duplicate and missing keys are reported for each of %s" % sorted(struct_fields),
               "duplicate_field covers %s, missing_field covers %s; expected both to cover %s" % (sorted(dup), sorted(miss), sorted(struct_fields)))
